@@ -224,6 +224,23 @@ def run(ctx, rep, tier):
     cm = ast.unparse(model.func("ConditionalAction.get_target_override_mode"))
     ok = model.has("ConditionalAction.get_target_override_mode", "submode = ActionOverrideMode.MAY_GOTO_UNDEFINED") and model.has("ConditionalAction.get_target_override_mode", "submode = ActionOverrideMode.MAY_GOTO_TARGET") and model.has("ConditionalAction.get_target_override_mode", "if submode.value > mode.value")
     rep.check(ok, "C05.d", "ConditionalAction.get_target_override_mode", "ALWAYS_* weakened to MAY_*, strongest mode kept", "conditional-action mode aggregation changed")
+    # every aggregate over the sub-actions of a conditional action ranges over all branches (the else branch has no IntegerCondition of its own)
+    for mname, mf in model.classes["ConditionalAction"].methods.items():
+        for n in walk_no_nested(mf):
+            its = []
+            if isinstance(n, ast.For):
+                its = [n.iter]
+            elif isinstance(n, (ast.GeneratorExp, ast.ListComp, ast.SetComp, ast.DictComp)):
+                its = [g.iter for g in n.generators]
+            for it in its:
+                t = ast.unparse(it)
+                if "sub_actions" not in t and "self.embeds()" not in t:
+                    continue
+                full = t in ("itertools.chain(*self.sub_actions.values())", "self.embeds()", "self.sub_actions.values()", "self.sub_actions.items()")
+                per_cond = t == "self.sub_actions[cond]" and mname == "is_timing_strict"     # condition-specific test, followed by an aggregate over all branches
+                rep.check(full or per_cond, "C05.d", f"ConditionalAction.{mname}", f"ranges over every branch's actions ({t})",
+                          f"`{t}` does not range over all branches of the conditional action: what the skipped branch (e.g. `else {{ break; }}`) does is not reported - the code generator "
+                          "jumps to the stale target after the break has set the state, reachability prunes states that are still needed")
     cmf = model.func("ConditionalAction.get_target_override_mode")
     rets = [n for n in walk_no_nested(cmf) if isinstance(n, ast.Return)]
     init = [n for n in strip_doc(cmf.body) if isinstance(n, ast.Assign) and ast.unparse(n.value) == "ActionOverrideMode.NONE"]
